@@ -14,7 +14,6 @@ Section Progress.
 Variable bucket : name -> N.
 Variable nlen : name -> N.
 Variable H : N.
-Hypothesis nlen_pos : forall nm, 1 <= nlen nm.
 Set Default Proof Using "All".
 
 Notation rsize := (rsize nlen).
@@ -82,7 +81,8 @@ Definition progress (f' : file) (t t' : thread) (bound : N) : Prop :=
 Lemma dispatch_remaining : forall ops t, (remaining (dispatch ops t) <= length ops)%nat.
 Proof.
   induction ops as [|o ops IH]; intro t; [cbn; lia|]. destruct o as [nm|k]; cbn [FileConc.dispatch length].
-  - destruct (c_maxNameLen <? nlen nm); [specialize (IH (push_res (RFail FTooLong) (set_cell 0 t))); lia|].
+  - destruct (nlen nm =? 0); [specialize (IH (push_res (RFail FEmpty) (set_cell 0 t))); lia|].
+    destruct (c_maxNameLen <? nlen nm); [specialize (IH (push_res (RFail FTooLong) (set_cell 0 t))); lia|].
     unfold remaining; cbn. lia.
   - destruct (t_cell t =? 0); [specialize (IH t); lia|]. unfold remaining; cbn. lia.
 Qed.
@@ -147,15 +147,16 @@ Proof. intros f b W. unfold sufl. rewrite (suf_zero bucket nlen H f b W). reflex
 (* a failed entry test means the mapping is behind the limit *)
 Lemma guard_behind : forall f t off n, wf_shared f -> In off (f_chain f (bucket (t_nm t))) ->
   walked2 f (bucket (t_nm t)) (t_head t) off n (t_map t) ->
-  (t_map t / UNIT <? n) || (off <? H + c_hashOff) || (t_map t <? off + 16) = true ->
+  (t_map t / UNIT <? n) || (off <? H + c_hashOff) || negb (off mod 8 =? 0) || (t_map t <? off + 16) = true ->
   t_map t < f_limit f.
 Proof.
   intros f t off n W Io Wk G.
-  destruct (linked_bounds bucket nlen H nlen_pos f _ off W Io) as (A1 & A2 & A3 & _).
-  pose proof (walked2_count bucket nlen H nlen_pos _ _ _ _ _ _ W Wk) as Cn.
-  apply orb_true_iff in G. destruct G as [G|G]; [apply orb_true_iff in G; destruct G as [G|G]|].
+  destruct (linked_bounds bucket nlen H f _ off W Io) as (A1 & A2 & A3 & _).
+  pose proof (walked2_count bucket nlen H _ _ _ _ _ _ W Wk) as Cn.
+  repeat (apply orb_true_iff in G; destruct G as [G|G]).
   - apply N.ltb_lt in G. unfold UNIT, c_recordUnit in G. lia.
   - apply N.ltb_lt in G. unfold_consts. lia.
+  - apply negb_true_iff in G. apply N.eqb_neq in G. exfalso. apply G. clear - A1. nlia.
   - apply N.ltb_lt in G. lia.
 Qed.
 
@@ -164,7 +165,7 @@ Lemma len_guard_behind : forall f t, wf_shared f -> In (t_off t) (f_chain f (buc
   t_map t < f_limit f.
 Proof.
   intros f t W Io G.
-  destruct (linked_bounds bucket nlen H nlen_pos f _ _ W Io) as (A1 & A2 & A3 & nl & El & N1 & N2).
+  destruct (linked_bounds bucket nlen H f _ _ W Io) as (A1 & A2 & A3 & nl & El & N1 & N2).
   rewrite El in G. apply orb_true_iff in G. destruct G as [G|G]; [apply N.eqb_eq in G; lia|apply N.ltb_lt in G; lia].
 Qed.
 
@@ -192,7 +193,7 @@ Proof.
   destruct (off =? 0) eqn:Q0.
   - right. split; [apply same_remaining; cbn; auto; discriminate|]. unfold phi, Rk, RMP in *; simp_t. lia.
   - apply N.eqb_neq in Q0. destruct Io as [->|Io]; [contradiction|].
-    destruct ((t_map t1 / UNIT <? n) || (off <? H + c_hashOff) || (t_map t1 <? off + 16)) eqn:G.
+    destruct ((t_map t1 / UNIT <? n) || (off <? H + c_hashOff) || negb (off mod 8 =? 0) || (t_map t1 <? off + 16)) eqn:G.
     + apply look_fail_progress; auto.
       pose proof (guard_behind f t1 off n W Io Wk G) as Bh. unfold RMP in B.
       apply N.ltb_lt in Bh. rewrite Bh in B. lia.
@@ -206,7 +207,7 @@ Proof.
   intros f t t1 off n bound Nd Eo B. unfold FileConc.dwalk.
   destruct (off =? t_oldh t1).
   - right. split; [apply same_remaining; cbn; auto; discriminate|]. unfold phi, Rk in *; simp_t. lia.
-  - destruct ((off <? H + c_hashOff) || (t_map t1 <? off + 16)).
+  - destruct ((off <? H + c_hashOff) || negb (off mod 8 =? 0) || (t_map t1 <? off + 16)).
     + apply ret_fail_done; assumption.
     + right. split; [apply same_remaining; cbn; auto; discriminate|]. unfold phi, Rk in *; simp_t. lia.
 Qed.
@@ -225,11 +226,11 @@ Proof.
   destruct (t_pc t) eqn:Pc; cbn [fst snd]; try contradiction.
   - (* LHead *)
     apply look_at_progress; simp_t; auto using head_inch; try congruence.
-    + apply (walked2_refl bucket nlen H nlen_pos).
+    + apply (walked2_refl bucket nlen H).
     + unfold phi, Rk, RMP; simp_t. rewrite Pc, N.eqb_refl.
       pose proof (sufl_le f (bucket (t_nm t)) (head_of f (bucket (t_nm t)))). lia.
   - (* LLen *)
-    destruct P as (Nm & Ih & Io & Wk). destruct P2 as (Tr & Bd & Wk2).
+    destruct P as ([Nm1 Nm2] & Ih & Io & Wk). destruct P2 as (Tr & Bd & Wk2).
     pose proof (sufl_ge1 f _ _ Io) as S1.
     destruct ((load_len nlen f (t_off t) =? 0) || (t_map t <? t_off t + 16 + load_len nlen f (t_off t))) eqn:G; cbn [fst snd].
     + apply look_fail_progress; auto; try congruence.
@@ -237,13 +238,13 @@ Proof.
       apply N.ltb_lt in Bh. rewrite Bh. lia.
     + fin Pc. lia.
   - (* LNext *)
-    destruct P as (Nm & Ih & Io & Wk). destruct P2 as (Tr & Bd & Wk2).
+    destruct P as ([Nm1 Nm2] & Ih & Io & Wk). destruct P2 as (Tr & Bd & Wk2).
     pose proof (sufl_ge1 f _ _ Io) as S1. pose proof (sufl_next f _ _ W Io) as Sn.
     destruct (name_eq f (t_off t) (t_nm t)) eqn:Q; cbn [fst snd].
     + apply ret_cell_done; auto; congruence.
     + destruct (walk_step bucket nlen H f _ _ _ _ W Io Wk Q) as [I2 _].
       apply look_at_progress; auto; try congruence.
-      * apply (walked2_step bucket nlen H nlen_pos); auto.
+      * apply (walked2_step bucket nlen H); auto.
       * unfold phi. rewrite Pc. lia.
   - (* RLimit *)
     destruct (f_limit f <=? t_map t); cbn [fst snd].
@@ -469,7 +470,7 @@ Proof.
     by (destruct (t_pc t); try (left; reflexivity); right; discriminate).
   destruct Dec as [Pd|Nd].
   - exists 0%nat, t. split; [exact E|exact Pd].
-  - pose proof (Inv2_step bucket nlen H nlen_pos st i I2) as I2'.
+  - pose proof (Inv2_step bucket nlen H st i I2) as I2'.
     destruct (nonblocking_own st i t I2 E Nd) as (t' & E' & [Lt|[Eq Lt]]).
     + assert (Lt' : (remaining t' < r)%nat) by lia.
       destruct (IHr (remaining t') Lt' _ (step st i) t' I2' E' eq_refl eq_refl) as (k & t'' & A & B).
@@ -482,7 +483,7 @@ Qed.
 
 (* ---- the same, for the states reachable from any initial state ---- *)
 Lemma reach_inv2 : forall st0 sched, init_ok st0 -> Inv2 (run sched st0).
-Proof. intros. apply (Inv2_run bucket nlen H nlen_pos). apply (Inv2_init bucket nlen H nlen_pos). assumption. Qed.
+Proof. intros. apply (Inv2_run bucket nlen H). apply (Inv2_init bucket nlen H). assumption. Qed.
 
 Theorem nonblocking : forall st0 sched, init_ok st0 ->
   let st := run sched st0 in
